@@ -268,6 +268,35 @@ def synthesize(traces, blocked, timeout_ms=60000):
         for b in secs:
             if a[0] < b[0]:
                 s.add(z3.Or(P[(a[0], a[2])] < P[(b[0], b[1])], P[(b[0], b[2])] < P[(a[0], a[1])]))
+    writes = {}
+    for e in ev:
+        if e[2] == 'W':
+            writes.setdefault(e[3:5], []).append(e)
+
+    def pos(e):
+        return P[(e[0], e[1])]
+
+    def reads_from(r, w):
+        return z3.And(pos(w) < pos(r), *[z3.Or(pos(o) < pos(w), pos(o) > pos(r)) for o in writes.get(r[3:5], []) if o is not w])
+
+    cons = {}
+
+    def consistent(r):
+        """read r observes the value it saw solo: from a same-valued write, or from the initial state if its solo value did"""
+        k = (r[0], r[1])
+        if k not in cons:
+            ws = writes.get(r[3:5], [])
+            alts = [reads_from(r, w) for w in ws if w[5] == r[5]]
+            own_before = any(w[0] == r[0] and w[1] < r[1] for w in ws)
+            if not own_before:
+                alts.append(z3.And(*[pos(w) > pos(r) for w in ws]))      # nothing written yet: initial value, as in the solo run
+            cons[k] = z3.Or(*alts) if alts else z3.BoolVal(False)
+        return cons[k]
+
+    def prefix_ok(e):
+        """every earlier read of e's thread is consistent with its solo run (so the thread really reaches e)"""
+        return z3.And(*[consistent(x) for x in ev if x[0] == e[0] and x[1] < e[1] and x[2] == 'R'])
+
     cands = []
     for r in ev:
         if r[2] != 'R':
@@ -277,9 +306,7 @@ def synthesize(traces, blocked, timeout_ms=60000):
                 key = (r[0], r[1], w[0], w[1])
                 if key in blocked:
                     continue
-                others = [o for o in ev if o[2] == 'W' and o[3:5] == r[3:5] and o is not w]
-                cond = z3.And(P[(w[0], w[1])] < P[(r[0], r[1])],
-                              *[z3.Or(P[(o[0], o[1])] < P[(w[0], w[1])], P[(o[0], o[1])] > P[(r[0], r[1])]) for o in others])
+                cond = z3.And(reads_from(r, w), prefix_ok(r), prefix_ok(w))
                 cands.append((key, cond, r, w))
     if not cands:
         return 'unsat', None, None, 0
